@@ -405,12 +405,19 @@ def prog_check(start, case, rec):
             M = sgn * first_moment(np.array(m.points, float), np.array(m.cells), ct, comp)
             phi = o["phi"]
             n = max(o["n"] + 1, int(np.ceil(phi / 60.0)) + 1)  # chords of at most 60 degrees (valid, non-degenerate cells)
-            m = m.revolve(n=n, phi=phi, axis=axis) if ct == "quad" else m.revolve(n=n, phi=phi)
+            phi_arg = phi
+            if phi < 360.0 and o["n"] % 2 == 0:
+                # the angles given one by one, the sector ENDING at 0 degrees (an open sector, not a closed ring)
+                phi_arg = np.linspace(-phi, 0.0, n)
+                rec.label("revolve:angles-as-array-ending-at-0")
+            m = m.revolve(n=n, phi=phi_arg, axis=axis) if ct == "quad" else m.revolve(n=n, phi=phi_arg)
             dth = np.deg2rad(phi) / (n - 1)
             V = (n - 1) * np.sin(dth) * M
             rec.require("revolve:cell-count", m.ncells == len(cells0) * (n - 1) and m.dim == dim + 1, [m.ncells, m.dim])
             if phi == 360.0:
                 rec.require("revolve:closed-ring-points", m.npoints == len(pts0) * (n - 1), [m.npoints, len(pts0) * (n - 1)])
+            else:
+                rec.require("revolve:open-sector-points", m.npoints == len(pts0) * n, [m.npoints, len(pts0) * n])
             hmin = min(hmin, 0.3 * dth)
             topo += 1
         elif op in ("midpoints", "convert"):
